@@ -117,6 +117,21 @@ impl<C: Config> Engine<C> {
     pub(in crate::engine::computation_graph) async fn acquire_active_input_session_guard(
         &self,
     ) -> (WriteTransaction<C>, ActiveInputSessionGuard) {
+        // The exclusive phase lock must be held *before* the timestamp is
+        // bumped and before the session's write batch is created: a reader
+        // that already holds (or is being handed) a shared permit would
+        // otherwise observe the new timestamp over the old inputs, and the
+        // session batch would be ordered before batches of computations
+        // that are still running under the previous timestamp.
+        let guard = self
+            .computation_graph
+            .database
+            .sync
+            .phase_mutex
+            .clone()
+            .write_owned()
+            .await;
+
         let mut write_buffer = self
             .computation_graph
             .database
@@ -137,15 +152,6 @@ impl<C: Config> Engine<C> {
             .sync
             .timestamp_map
             .insert((), Timestamp(new_timestamp), &mut write_buffer)
-            .await;
-
-        let guard = self
-            .computation_graph
-            .database
-            .sync
-            .phase_mutex
-            .clone()
-            .write_owned()
             .await;
 
         (write_buffer, ActiveInputSessionGuard(Arc::new(guard)))
